@@ -163,6 +163,10 @@ class State:
 
     def types(self, t):
         ts = structural_type(t)
+        if ts is None and isinstance(t, tuple) and len(t) == 4 and t[0] == "binop" and t[1] == "+":
+            tl, tr = self.types(t[2]), self.types(t[3])
+            if tl is not None and tr is not None and len(tl) == 1 and tl == tr and tl <= {"str", "bytes", "list", "tuple"}:
+                ts = tl
         for f in self.closure():
             if f[0] == "type" and f[1] == t:
                 ts = f[2] if ts is None else ts & f[2]
@@ -375,6 +379,9 @@ class Walker:
                 st.env[arg.arg] = P(arg.arg)
             else:
                 st.env[arg.arg] = P(arg.arg)
+            fa = getattr(self, "funargs", None)
+            if fa and arg.arg in fa:
+                st.env[arg.arg] = fa[arg.arg]  # specialised on a function-valued argument
             first = False
         if a.vararg:
             st.env[a.vararg.arg] = P("*" + a.vararg.arg)
@@ -421,6 +428,16 @@ class Walker:
     def s_Expr(self, n, st):
         if isinstance(n.value, ast.Constant):
             return [(st, "fall", None)]
+        if isinstance(n.value, ast.Yield) and getattr(self, "yield_hook", None) is not None:
+            outs = []
+            if n.value.value is None:
+                return self.yield_hook(st, C(None))
+            for s, k, p in self.expr(n.value.value, st):
+                if k != "val":
+                    outs.append((s, k, p))
+                else:
+                    outs.extend(self.yield_hook(s, p))
+            return outs
         return [(s, "fall", None) if k == "val" else (s, k, p) for s, k, p in self.expr(n.value, st)]
 
     def s_Pass(self, n, st):
@@ -494,6 +511,10 @@ class Walker:
                     self.rz(outs, s2, t, "IndexError", "list assignment index out of range", [("nottype", b, frozenset(["dict"]))])
                 s3 = s2.copy()
                 s3.ev("store", self.site(node), Sub(b, k), val)
+                if is_lit(val) and val[1] in ("dict", "list", "set") and val[3] is not None:
+                    # a fresh mutable display stored into a container: a local name still bound to
+                    # it is from now on an alias of that slot (signatures = doc["signatures"] = {})
+                    s3.env["$alias"] = {**s3.env.get("$alias", {}), val: Sub(b, k)}
                 s3.facts.discard(("nothas", b, k))
                 s3.add(("has", b, k), ("ok", Sub(b, k)))
                 vt = s3.types(val)
@@ -703,7 +724,92 @@ class Walker:
     def s_Break(self, n, st):
         return [(st, "break", None)]
 
+    def _generator_cm(self, item, st):
+        """(FuncInfo, call node) if the with-item is a call of a repo function decorated with
+        contextlib.contextmanager whose body has exactly one `yield` statement, else None"""
+        e = item.context_expr
+        if not isinstance(e, ast.Call):
+            return None
+        chain = dotted_chain(e.func)
+        if not chain or not self._is_module_level(chain[0], st):
+            return None
+        r, rest = self.prog.resolve_dotted(self.mod, chain)
+        if r[0] != "func" or rest:
+            return None
+        fi = self.prog.funcs[r[1]]
+        deco = False
+        for d in fi.node.decorator_list:
+            rr = self.prog.resolve_expr_static(fi.mod, d.func if isinstance(d, ast.Call) else d)
+            if rr and rr[0] == "ext" and rr[1] in ("contextlib.contextmanager",):
+                deco = True
+        yields = [x for x in ast.walk(fi.node) if isinstance(x, (ast.Yield, ast.YieldFrom))]
+        if not deco or len(yields) != 1 or isinstance(yields[0], ast.YieldFrom):
+            return None
+        return fi
+
+    def _with_generator_cm(self, n, item, fi, st):
+        """`with cm(args) as x: BODY` for a @contextmanager generator: the generator's code up to its
+        yield, BODY (x bound to the yielded value), then the rest of the generator - an exception or
+        an early exit of BODY resumes the generator at the yield (so its finally/except clauses run)"""
+        from .calls import bind_params
+
+        e = item.context_expr
+        outs = []
+        cur, bad = self.seq(list(e.args) + [k.value for k in e.keywords], st)
+        outs.extend(bad)
+        for s, ts in cur:
+            args = ts[: len(e.args)]
+            kwargs = tuple((k.arg or "**", v) for k, v in zip(e.keywords, ts[len(e.args) :]))
+            w2 = Walker(self.eng, fi, None, self.inline)
+            mp, order = bind_params(w2, e, fi, list(args), kwargs, skip_first=False)
+            if mp is None:
+                self.rz(outs, s, e, "TypeError", "call does not match signature: " + order, [])
+                continue
+            caller_env = s.env
+            s = s.copy()
+            s.env = dict(mp)
+            s.ev("with-enter", self.site(e), CallT("repo:" + fi.qualname, [mp[x] for x in order]))
+            box = {"env": caller_env}
+
+            def hook(s_y, yielded):
+                gen_env = s_y.env
+                s_b = s_y.copy()
+                s_b.env = dict(box["env"])
+                res = []
+                starts = self._assign_target(item.optional_vars, yielded, s_b, n) if item.optional_vars is not None else [(s_b, "fall", None)]
+                for s0, k0, p0 in starts:
+                    body_outs = [(s0, k0, p0)] if k0 != "fall" else self.block(n.body, s0)
+                    for s1, k1, p1 in body_outs:
+                        s1 = s1.copy()
+                        box["env"] = s1.env  # (last completed body path: an approximation for names bound in BODY)
+                        s1.env = dict(gen_env, **{"$caller_env": s1.env})
+                        if k1 == "fall":
+                            res.append((s1, "fall", None))
+                        elif k1 == "raise":
+                            res.append((s1, "raise", p1))
+                        else:
+                            res.append((s1, "body-" + k1, p1))
+                return res
+
+            w2.yield_hook = hook
+            for s3, k3, p3 in w2.block(fi.node.body, s):
+                s3 = s3.copy()
+                env_back = s3.env.pop("$caller_env", None) or box["env"]
+                s3.env = dict(env_back)
+                s3.ev("with-exit", self.site(n), k3)
+                if k3 in ("fall", "return"):
+                    outs.append((s3, "fall", None))  # the generator finished: the with statement completes
+                elif k3.startswith("body-"):
+                    outs.append((s3, k3[5:], p3))
+                else:
+                    outs.append((s3, k3, p3))
+        return outs
+
     def s_With(self, n, st):
+        if len(n.items) == 1:
+            gfi = self._generator_cm(n.items[0], st)
+            if gfi is not None:
+                return self._with_generator_cm(n, n.items[0], gfi, st)
         cur = [(st, "fall", None)]
         for item in n.items:
             nxt = []
@@ -775,8 +881,84 @@ class Walker:
             if k != "val":
                 outs.append((s, k, it))
                 continue
-            outs.extend(self._loop(n, s, it, n.target, n.body, n.orelse))
+            items = self.literal_items(it, s)
+            if items is not None:
+                outs.extend(self._unrolled(n, s, items))
+            else:
+                outs.extend(self._loop(n, s, it, n.target, n.body, n.orelse))
         return outs
+
+    UNROLL_MAX = 16
+
+    def literal_items(self, it, s):
+        """element terms of an iterable that is a fresh literal display (list/tuple/set display, a
+        dict display through items()/keys()/values() or directly, zip()/enumerate() of displays) -
+        such loops are unrolled, so tables of validators or of (suffix, class, key) triples are
+        analysed element by element.  None if `it` is not of that shape."""
+        def untouched(lit):
+            for ev in _deep_events(s.events):
+                if ev[0] in ("store", "del", "mutcall") and _root_term(ev[2]) == lit:
+                    return False
+            return True
+
+        if is_lit(it) and it[1] in ("list", "tuple", "set") and len(it[2]) <= self.UNROLL_MAX and untouched(it):
+            if it[1] == "set" and len(it[2]) > 1:
+                return None  # iteration order of a set display is not the source order
+            return list(it[2])
+        if is_lit(it, "dict") and len(it[2]) <= self.UNROLL_MAX and untouched(it):
+            return [k for k, _v in it[2]]
+        if is_call(it, ("method:items", "method:keys", "method:values")) and len(it[2]) == 1 and is_lit(it[2][0], "dict") and len(it[2][0][2]) <= self.UNROLL_MAX and untouched(it[2][0]):
+            d = it[2][0]
+            if it[1] == "method:items":
+                return [("lit", "tuple", (k, v), None) for k, v in d[2]]
+            if it[1] == "method:keys":
+                return [k for k, _v in d[2]]
+            return [v for _k, v in d[2]]
+        if is_call(it, "builtin:zip") and it[2] and not it[3]:
+            cols = [self.literal_items(a, s) for a in it[2]]
+            if all(c is not None for c in cols):
+                n = min(len(c) for c in cols)
+                return [("lit", "tuple", tuple(c[i] for c in cols), None) for i in range(n)]
+        if is_call(it, "builtin:enumerate") and len(it[2]) == 1 and not it[3]:
+            col = self.literal_items(it[2][0], s)
+            if col is not None:
+                return [("lit", "tuple", (C(i), x), None) for i, x in enumerate(col)]
+        if is_call(it, ("builtin:list", "builtin:tuple", "builtin:sorted", "builtin:reversed", "builtin:iter")) and len(it[2]) == 1 and not it[3] and it[1] != "builtin:sorted":
+            col = self.literal_items(it[2][0], s)
+            if col is not None:
+                return col[::-1] if it[1] == "builtin:reversed" else col
+        return None
+
+    def _unrolled(self, n, s, items):
+        cur = [(s, "fall", None)]
+        done = []
+        for item in items:
+            nxt = []
+            for s1, k1, p1 in cur:
+                if k1 != "fall":
+                    nxt.append((s1, k1, p1))
+                    continue
+                for s0, k0, p0 in self._assign_target(n.target, item, s1.copy(), n):
+                    if k0 != "fall":
+                        nxt.append((s0, k0, p0))
+                        continue
+                    for s2, k2, p2 in self.block(n.body, s0):
+                        if k2 in ("fall", "continue"):
+                            nxt.append((s2, "fall", None))
+                        elif k2 == "break":
+                            done.append((s2, "fall", None))
+                        else:
+                            nxt.append((s2, k2, p2))
+            cur = nxt
+            if len(cur) > PATH_CAP:
+                raise AnalysisError("path cap exceeded while unrolling a loop in %s" % self.fi.qualname)
+        res = []
+        for s1, k1, p1 in cur:
+            if k1 == "fall" and n.orelse:
+                res.extend(self.block(n.orelse, s1))
+            else:
+                res.append((s1, k1, p1))
+        return res + done
 
     def iter_shape(self, it, s, node, outs):
         """-> (base container term, mode) where mode in items/values/keys/plain; may add a
@@ -1020,7 +1202,14 @@ class Walker:
 
     def e_Name(self, e, st):
         if e.id in st.env and "$global:" + e.id not in st.env:
-            return [(st, "val", st.env[e.id])]
+            t = st.env[e.id]
+            alias = st.env.get("$alias")
+            if alias:
+                try:
+                    t = alias.get(t, t)
+                except TypeError:
+                    pass
+            return [(st, "val", t)]
         if "$global:" + e.id not in st.env and e.id in self._local_names():
             # a local variable that is not bound on this path (assigned later / on another branch)
             outs = []
@@ -1059,6 +1248,10 @@ class Walker:
             t = G("class:" + r[1])
         elif k == "const":
             t = G("const:%s.%s" % (r[1], r[2]))
+            if not rest:
+                folded = self.eng.immutable_const(r[1], r[2])
+                if folded is not None:
+                    return folded
         elif k == "ext":
             t = G("ext:" + r[1])
         elif k == "extmod":
@@ -1144,24 +1337,47 @@ class Walker:
         return self._display(e, "set", st)
 
     def _display(self, e, kind, st):
-        if any(isinstance(x, ast.Starred) for x in e.elts):
-            return [(st, "val", Fresh("starred-display"))]
-        cur, outs = self.seq(e.elts, st)
+        starred = [isinstance(x, ast.Starred) for x in e.elts]
+        cur, outs = self.seq([x.value if isinstance(x, ast.Starred) else x for x in e.elts], st)
         for s, ts in cur:
+            items = []
+            unknown = False
+            for t, st_ in zip(ts, starred):
+                if not st_:
+                    items.append(t)
+                    continue
+                spliced = self.literal_items(t, s)  # (*display,) / (*dict_display,): splice its items
+                if spliced is None:
+                    unknown = True
+                    break
+                items.extend(spliced)
+            if unknown:
+                outs.append((s, "val", Fresh("starred-display")))
+                continue
             site = None if kind == "tuple" else self.site(e)[:3]
-            outs.append((s, "val", ("lit", kind, tuple(ts), site)))
+            outs.append((s, "val", ("lit", kind, tuple(items), site)))
         return outs
 
     def e_Dict(self, e, st):
-        if any(k is None for k in e.keys):
-            return [(st, "val", Fresh("dict-unpack"))]
-        cur, outs = self.seq([x for kv in zip(e.keys, e.values) for x in kv], st)
+        nodes = []
+        for k, v in zip(e.keys, e.values):
+            nodes += [ast.Constant(value="**") if k is None else k, v]
+        cur, outs = self.seq(nodes, st)
         for s, ts in cur:
-            items = tuple((ts[i], ts[i + 1]) for i in range(0, len(ts), 2))
+            items = tuple((("unpack",) if e.keys[i // 2] is None else ts[i], ts[i + 1]) for i in range(0, len(ts), 2))
+            # {**{...literal...}, k: v}: splice literal dict displays; other mappings stay as ("unpack",) items
+            flat_items = []
+            for kk, vv in items:
+                if kk == ("unpack",) and is_lit(vv, "dict") and not any(k2 == ("unpack",) for k2, _v2 in vv[2]):
+                    flat_items.extend(vv[2])
+                else:
+                    flat_items.append((kk, vv))
+            items = tuple(flat_items)
             t = ("lit", "dict", items, self.site(e)[:3])
             s = s.copy()
             for kk, vv in items:
-                s.add(("has", t, kk))
+                if kk != ("unpack",):
+                    s.add(("has", t, kk))
             outs.append((s, "val", t))
         return outs
 
@@ -1237,7 +1453,15 @@ class Walker:
                 elif all(x.startswith("obj:datetime.") for x in tl | tr) and op in ("+", "-"):
                     res = "dt"
             if res is None:
-                self.rz(outs, s, e, "TypeError", "operator %s on operands of unknown/mixed type" % op, [("badoperands", op, l, r)])
+                conds = [("badoperands", op, l, r)]
+                fams = [frozenset(["str"]), frozenset(["bytes"]), frozenset(["list"]), frozenset(["tuple"]), NUM]
+                if op == "+":
+                    for known, other in ((tl, r), (tr, l)):
+                        for fam in fams:
+                            if known is not None and known <= fam:
+                                # the other operand must be outside this family for the error to occur
+                                conds.append(("nottype", other, fam | (frozenset(["bytearray", "memoryview"]) if fam == frozenset(["bytes"]) else frozenset())))
+                self.rz(outs, s, e, "TypeError", "operator %s on operands of unknown/mixed type" % op, conds)
             if op in ("/", "//", "%") and res != "str":
                 self.rz(outs, s, e, "ZeroDivisionError", "division", [])
             s = s.copy()
@@ -1318,6 +1542,26 @@ class Walker:
             outs.append((s, k, p))
         return outs
 
+    def e_Yield(self, e, st):
+        """a generator body walked on its own (not through a with statement): straight through, the
+        value sent back in is unknown"""
+        if e.value is None:
+            s = st.copy()
+            s.ev("yield", self.site(e), C(None))
+            return [(s, "val", Fresh("sent"))]
+        outs = []
+        for s, k, p in self.expr(e.value, st):
+            if k == "val":
+                s = s.copy()
+                s.ev("yield", self.site(e), p)
+                outs.append((s, "val", Fresh("sent")))
+            else:
+                outs.append((s, k, p))
+        return outs
+
+    def e_YieldFrom(self, e, st):
+        return self.e_Yield(e, st)
+
     def e_Lambda(self, e, st):
         return [(st, "val", Fresh("lambda"))]
 
@@ -1396,6 +1640,10 @@ class Walker:
             if k != "val":
                 outs.append((s, k, it))
                 continue
+            items = self.literal_items(it, s)
+            if items is not None and not (kind == "gen" and False):
+                outs.extend(self._unrolled_comp(e, kind, g, s, items))
+                continue
             base, mode = self.iter_shape(it, s, e, outs)
             loop_id = (self.fi.qualname, e.lineno, e.col_offset)
             el = Elem(base, loop_id)
@@ -1447,7 +1695,56 @@ class Walker:
                 self.comp_facts[(it, loop_id)] = keep
             s2 = s.copy()
             s2.ev("loop", self.site(e), base, el, tuple(body_paths))
+            if kind != "gen" and not g.ifs and body_paths:
+                allf = merge_facts([bp[1] for bp in body_paths])
+                keepf = frozenset(f for f in allf if _mentions(f, el))
+                if keepf:
+                    s2.add(("forall", base, loop_id, keepf))
             outs.append((s2, "val", ("comp", kind, it, elt_term if elt_term is not None else Fresh("elt"), loop_id)))
+        return outs
+
+    def _unrolled_comp(self, e, kind, g, s, items):
+        """comprehension over a literal display: evaluated element by element -> a display of the
+        element values (filters decide per path which elements are kept)"""
+        outs = []
+        cur = [(s, [])]
+        elt_nodes = [e.key, e.value] if kind == "dict" else [e.elt]
+        for item in items:
+            nxt = []
+            for s1, acc in cur:
+                for s0, k0, p0 in self._assign_target(g.target, item, s1.copy(), e):
+                    if k0 != "fall":
+                        outs.append((s0, k0, p0))
+                        continue
+                    states = [(s0, True)]
+                    for cnd in g.ifs:
+                        nx2 = []
+                        for s3, keep in states:
+                            if not keep:
+                                nx2.append((s3, keep))
+                                continue
+                            for s4, k4, p4 in self.cond(cnd, s3):
+                                if k4 == "true":
+                                    nx2.append((s4, True))
+                                elif k4 == "false":
+                                    nx2.append((s4, False))
+                                else:
+                                    outs.append((s4, k4, p4))
+                        states = nx2
+                    for s3, keep in states:
+                        if not keep:
+                            nxt.append((s3, acc))
+                            continue
+                        ok, bad = self.seq(elt_nodes, s3)
+                        outs.extend(bad)
+                        for s5, ts in ok:
+                            nxt.append((s5, acc + [ts[0] if kind != "dict" else (ts[0], ts[1])]))
+            cur = nxt
+            if len(cur) > PATH_CAP:
+                raise AnalysisError("path cap exceeded while unrolling a comprehension in %s" % self.fi.qualname)
+        for s1, acc in cur:
+            lk = {"list": "list", "set": "set", "gen": "list", "dict": "dict"}[kind]
+            outs.append((s1, "val", ("lit", lk, tuple(acc), self.site(e)[:3])))
         return outs
 
     def _leave_comp(self, s, s1, e, base, el):
@@ -1525,6 +1822,27 @@ def _names_of_target(t):
             out += _names_of_target(e)
         return out
     return []
+
+
+def _deep_events(events):
+    """every event, descending into inlined callees and loop bodies"""
+    for ev in events:
+        if ev[0] == "inlined":
+            yield from _deep_events(ev[3])
+        else:
+            yield ev
+            if ev[0] == "loop":
+                for bp in ev[4]:
+                    yield from _deep_events(bp[2])
+            elif ev[0] == "while":
+                for bp in ev[2]:
+                    yield from _deep_events(bp[2])
+
+
+def _root_term(t):
+    while isinstance(t, tuple) and t and t[0] in ("sub", "attr"):
+        t = t[1]
+    return t
 
 
 def _mentions(f, el):
